@@ -178,6 +178,25 @@ class Mon:
         def host_func(x):
             return x
         self.host.register_function(host_func, name='hostFunc')
+
+        # host functions that use their own call scope as scratch space (variables, a helper function):
+        # whatever they store belongs to the call and must not outlive it
+        def scratch(yaql_interface, v):
+            yaql_interface['scratch'] = v
+            return yaql_interface('$scratch')
+
+        def scratch_ctx(context, v):
+            context['scratchCtx'] = v
+            context.register_function(lambda: v, name='scratchFn')
+            return context['scratchCtx']
+
+        def scratch_dollar(yaql_interface, v):
+            yaql_interface['$'] = v
+            yaql_interface['n'] = v
+            return yaql_interface('$')
+        self.host.register_function(scratch, name='scratch')
+        self.host.register_function(scratch_ctx, name='scratchCtx')
+        self.host.register_function(scratch_dollar, name='scratchDollar')
         self.armed = False
         self.ctx_writes = []
         self.attr_writes = []
@@ -412,6 +431,9 @@ POOL = [
     '$.items.slice(2)', '$.items.orderByDescending($).thenBy($)', '$.nested.orderBy($.len()).thenBy($[0])',
     "$.doc.get(b, [])", '$.doc.b', '$.nested[0]', '[$.items, $.items]', '{k => $.items}', '$.items.skip(1).take(1)',
     "regex('a').replaceBy('banana', $.value.toUpper())", '$.items.aggregate($1 + $2, 0)', '$',
+    'scratch($.items)', '$.items.select(scratch($))', 'scratchCtx($.doc)', '[scratchCtx(1), $scratchCtx, scratchCtx(2)]',
+    'scratchDollar(5) + $n', 'scratch(1) + scratch(2)', '$.items.len().scratch()' if False else 'scratch($.items.len())',
+    'let(a => 1) -> scratch($a)', '[scratchDollar($.items), $, $n]',
 ]
 
 
